@@ -315,3 +315,33 @@ Definition upgrade_installed_ctx (r : cfg) (o : uopts) (force start_service : bo
 Definition agree_ctxs_upgrade (c : cfg) (env : option (list (string * string))) (ls : list life) (o : uopts)
            (force start_service : bool) (install upgrade : ictx) : bool :=
   ctx_eqb (install_ctx c env) install && ctx_eqb (upgrade_installed_ctx (after_life c ls) o force start_service) upgrade.
+
+(* ---------------------------------------------------------------- where the node looks for its first peers *)
+(* PeersArgs::get_bootstrap_addr(config, Some(count)), stage by stage.  `usable` = how many of the --peer
+   addresses survive craft_valid_multiaddr (an address without /p2p/<id> is dropped), `cached` = how many the
+   bootstrap cache yields, `from_urls` = how many the --network-contacts-url endpoints return.  (ANT_PEERS is not
+   part of what the manager writes and is empty in the service environment.) *)
+Inductive source := SrcUrls | SrcMainnet.
+
+Definition select_sources (first local testnet ignore_cache : bool) (urls : list string)
+           (usable cached from_urls count : nat) : list source :=
+  if first then [] else                                   (* "First node in network, no initial bootstrap peers" *)
+  if local then [] else                                   (* mDNS only *)
+  if Nat.leb count usable then [] else                    (* enough from the arguments *)
+  let have := (usable + (if ignore_cache then 0 else cached))%nat in
+  if negb ignore_cache && Nat.leb count have then [] else
+  let after_urls := match urls with [] => have | _ => (have + from_urls)%nat end in
+  (match urls with [] => [] | _ => [SrcUrls] end) ++
+  (if (match urls with [] => false | _ => Nat.leb count after_urls end) then []
+   else if testnet then [] else [SrcMainnet]).           (* `if !self.disable_mainnet_contacts` *)
+
+Definition source_eqb (a b : source) : bool :=
+  match a, b with SrcUrls, SrcUrls | SrcMainnet, SrcMainnet => true | _, _ => false end.
+
+(* the sources the node of configuration c queries, for the numbers the harness's recording proxy hands out *)
+Definition cfg_sources (c : cfg) (usable cached from_urls count : nat) : list source :=
+  select_sources (c_first c) (c_local c) (c_testnet c) (c_ignore c) (c_urls c) usable cached from_urls count.
+
+Definition agree_sources (c : cfg) (usable cached from_urls count : nat) (urls_seen mainnet_seen : bool) : bool :=
+  let s := cfg_sources c usable cached from_urls count in
+  Bool.eqb (existsb (source_eqb SrcUrls) s) urls_seen && Bool.eqb (existsb (source_eqb SrcMainnet) s) mainnet_seen.
